@@ -252,12 +252,59 @@ func uniformArgSubst(c *core.Ctx, fn *ssa.Function) func(string) string {
 			}
 		}
 	}
+	if _, has := bind["recv"]; !has && root.Signature.Recv() != nil {
+		// called only from other methods of the same value (`loop` → `writePing`): the value is what
+		// those methods were called on
+		if lit := receiverLiteral(c, root, 0); lit != "" {
+			bind["recv"] = lit
+		}
+	}
 	return func(s string) string {
 		for k, v := range bind {
 			s = regexp.MustCompile(`\b`+regexp.QuoteMeta(k)+`\b`).ReplaceAllString(s, strings.ReplaceAll(v, "$", "$$"))
 		}
 		return an.SimplifyLitFields(s)
 	}
+}
+
+// receiverLiteral: the one struct literal (`&lit{…}` / `lit{…}`) every call chain hands to fn as
+// its receiver: directly, or through methods of the same type that pass their own receiver on.
+func receiverLiteral(c *core.Ctx, fn *ssa.Function, depth int) string {
+	if depth > 4 {
+		return ""
+	}
+	lit := ""
+	sites := 0
+	for _, caller := range uniqFuncs(callerIndex(c)[fn]) {
+		for _, ci := range calls(caller) {
+			if an.StaticCallee(ci.Common()) != fn || len(ci.Common().Args) == 0 {
+				continue
+			}
+			sites++
+			ap := an.PathOf(ci.Common().Args[0])
+			got := ""
+			switch {
+			case strings.HasPrefix(ap, "lit{") || strings.HasPrefix(ap, "&lit{"):
+				got = ap
+			case ap == "recv":
+				croot := caller
+				for croot.Parent() != nil {
+					croot = croot.Parent()
+				}
+				if recvTypeName(croot) == recvTypeName(fn) {
+					got = receiverLiteral(c, croot, depth+1)
+				}
+			}
+			if got == "" || lit != "" && lit != got {
+				return ""
+			}
+			lit = got
+		}
+	}
+	if sites == 0 {
+		return ""
+	}
+	return lit
 }
 
 // deadlineCase: one way the context handed to a WebSocket operation comes
